@@ -147,6 +147,19 @@ CHECKS = {
          "avoid rules of listed known findings are rejected and counted (rejected_known_finding). Only crash-/leak- "
          "artifacts and reproduced time-outs are violations; oom/slow-unit are ignored.",
          "DESIGN.md 3/C16"),
+ "C17": ("libfuzzer",
+         "coverage-guided fuzzing (libFuzzer + ASan/UBSan) of naken_util's file loaders + disassembly/print and of its main() command loop; structure-aware header-field mutator; replay tier",
+         "Generated-input search by coverage-guided fuzzing with two in-process targets. fuzz_util_file: format/CPU "
+         "selector + file bytes -> file_read() (forced loader or auto-detection) -> disassembly windows at both ends of "
+         "the loaded range, print/print16/print32, symbol dump; seeds are real objects written by naken_asm in all 9 "
+         "formats for 6 CPUs; a custom mutator sets aligned 2/4-byte header fields to boundary values (0, 0xffffffff, "
+         "0x7fffffff, file length +-2). fuzz_util_cmd: naken_util's main() in-process (interactive with/without a "
+         "loaded file, or -disasm) fed scripts over all commands with generated arguments. 16 libFuzzer processes "
+         "(10 file, 6 cmd), quick 40 s / thorough 600 s each; crash artifacts re-run 3x, time-outs re-run with 60 s; "
+         "committed regression inputs (corpus/C17) replayed first.",
+         "Output above 4 MB per input ends the iteration and is counted (output_cutoffs): requested output is not a hang. "
+         "Scripts run in single-step mode ('speed 0' forced). The evidence counts files accepted per loader.",
+         "DESIGN.md 3/C17"),
  "C18": ("hypothesis+nvserve",
          "Hypothesis structured programs; generic .lst parser checked against the hex output and an own disassembly of the output image",
          "Generated-input search: structured programs (multi-word instructions, data between code, .org segments, "
